@@ -98,6 +98,9 @@ inductive Obs where
 
 structure St where
   k : Nat
+  /-- further sender ids that may call although they are not among the deployed `SourceRunnerIds` (runners of a
+  previous deployment that are still alive): senders `k … k+z-1` -/
+  z : Nat := 0
   maxSize : Nat
   /-- per sender: the item of the `HandleEvent` call in flight and whether it passed alignment (`false` = parked) -/
   slots : Nat → Option (Item × Bool)
@@ -110,6 +113,8 @@ structure St where
   kv : KVf
   timers : Timers
   wms : Nat → Nat
+  /-- undeployed senders that sent a watermark: `AdvanceWatermark` adds them to `r.upstreams` -/
+  ups : List Nat := []
   watermark : Nat
   /-- environment: the completion of the next checkpoint fails (the ack to the job, or already `db.Checkpoint`) -/
   ackFails : Bool
@@ -149,8 +154,15 @@ def maybeFlush (s : St) : St × List Obs :=
 def addEntry (s : St) (e : Entry) : St × List Obs := maybeFlush (push s e)
 
 /-- `iteru.MinFunc(maps.Values(r.upstreams))` -/
-def minWm (k : Nat) (wms : Nat → Nat) : Nat :=
-  (List.range k).foldl (fun m i => min m (wms i)) (wms 0)
+def minWm (l : List Nat) (wms : Nat → Nat) : Nat :=
+  l.foldl (fun m i => min m (wms i)) (wms 0)
+
+/-- `AdvanceWatermark`: record the sender's watermark (an undeployed sender becomes a new upstream entry) and
+recompute the composite watermark -/
+def wmState (s : St) (sr ts : Nat) : St :=
+  let wms := fun i => if i = sr then ts else s.wms i
+  let ups := if sr < s.k || s.ups.contains sr then s.ups else sr :: s.ups
+  { s with wms := wms, ups := ups, watermark := minWm (List.range s.k ++ ups) wms }
 
 /-- the loop of `handleWatermark` over `AdvanceWatermark` (earliest timer first, stop at the first one after the
 composite watermark). Fuel = number of stored timers on entry (timers set inside the loop are never due). -/
@@ -173,7 +185,7 @@ def isParked (s : St) (i : Nat) : Bool :=
   | some (_, false) => true
   | _ => false
 
-def parkedList (s : St) : List Nat := (List.range s.k).filter (isParked s)
+def parkedList (s : St) : List Nat := (List.range (s.k + s.z)).filter (isParked s)
 
 /-- `if o.checkpoint == nil { o.checkpoint = newCheckpoint(barrier.CheckpointId, o.sourceRunners.all) }` -/
 def virtCk (s : St) (id : Nat) : Nat × List Nat := s.ckpt.getD (id, List.range s.k)
@@ -196,14 +208,20 @@ def barrier (s : St) (sr id : Nat) : St × List Obs :=
          [.reg sr id] ++ r.2 ++ [.snap c.1 r.1.kv r.1.timers, .ack c.1, .released (parkedList s)])
     else ({ s with ckpt := some (c.1, missing) }, [.reg sr id])
 
+/-- `handleCheckpointBarrier` for a sender that is not among the deployed runners: `registerBarrier` checks the id
+and deletes nothing, so the barrier starts (or keeps) the checkpoint record but never completes it — unless no
+barrier is missing any more (completed record left by a failed ack), where the handler runs its completion again -/
+def barrierU (s : St) (sr id : Nat) : St × List Obs :=
+  let c := virtCk s id
+  if id ≠ c.1 then ({ s with ckpt := some c }, [.reject sr id c.1])
+  else if c.2.isEmpty then barrier s sr id
+  else ({ s with ckpt := some c }, [])
+
 /-- the event function the consumer runs -/
 def process (s : St) (sr : Nat) : Item → St × List Obs
   | .ev key p t => addEntry s (.user sr key p t)
-  | .wm ts =>
-    let wms := fun i => if i = sr then ts else s.wms i
-    let w := minWm s.k wms
-    fireLoop sr w s.timers.length { s with wms := wms, watermark := w } []
-  | .bar id => barrier s sr id
+  | .wm ts => fireLoop sr (wmState s sr ts).watermark s.timers.length (wmState s sr ts) []
+  | .bar id => if sr < s.k then barrier s sr id else barrierU s sr id
   | .done =>
     -- `handleSourceComplete`: flush, deactivate, stop when no source is active any more
     let r := flush s
@@ -241,18 +259,18 @@ def redeploy (s : St) : St × List Obs :=
             slots := fun i => match s.slots i with
               | some (_, false) => none      -- woken with `errCheckpointAbandoned`
               | x => x,
-            kv := emptyKV, timers := [], wms := fun _ => 0, watermark := 0, active := List.range s.k },
+            kv := emptyKV, timers := [], wms := fun _ => 0, ups := [], watermark := 0, active := List.range s.k },
    [.redeployed (parkedList s)])
 
 /-- what the property asks of a redeploy (spec, not the code: open finding D45): nothing of the previous deployment
 reaches the new one — the event batcher is emptied and every call in flight is turned away, not only the parked ones -/
 def redeploySpec (s : St) : St × List Obs :=
   ({ (redeploy s).1 with slots := fun _ => none, pending := [] },
-   [.redeployed ((List.range s.k).filter fun i => (s.slots i).isSome)])
+   [.redeployed ((List.range (s.k + s.z)).filter fun i => (s.slots i).isSome)])
 
 def stepLive (s : St) : Act → St × List Obs
   | .align sr it =>
-    if sr < s.k then
+    if sr < s.k + s.z then
       match s.slots sr with
       | some _ => (s, [.busy sr])
       | none =>
@@ -260,7 +278,7 @@ def stepLive (s : St) : Act → St × List Obs
          [.aligned sr (passes s sr)])
     else (s, [])
   | .go sr =>
-    if sr < s.k then
+    if sr < s.k + s.z then
       match s.slots sr with
       | some (it, true) =>
         let r := process s sr it
